@@ -389,6 +389,31 @@ def run(ck):
     ck.stream("e2e_inband_paramsets", e2e, None, "C09_e2e", "C09_e2e_ok", compare=False, timeout=600,
               sig=lambda c, e, o: "e2e:inband-paramsets", sample=1)
 
+    # 3f. concurrent writers sharing the scratch-buffer pool: 2-3 real mpegts.Writers on scripted io.Writers;
+    # a trigger makes another writer write a whole frame between two TS packets of a frame in progress
+    wcases = []
+    for _ in range(400 if T else 60):
+        nw = rng.choice([2, 2, 3])
+        writers = []
+        for _w in range(nw):
+            fs = [ts_frame(rng, rng.choice([rng.randint(150, 1900), rng.randint(150, 700), rng.randint(1, 6000)]))
+                  for _ in range(rng.randint(1, 6))]
+            writers.append(fs)
+        trig = []
+        for a in range(nw):
+            npk = sum((len(f[4]) + len(f[5]) + 14 + 183) // 184 + 1 for f in writers[a])
+            for _ in range(rng.randint(1, 5)):
+                trig.append([a, rng.randint(1, max(1, npk)), rng.choice([b for b in range(nw) if b != a])])
+        wcases.append([writers, trig])
+    ck.stream("concurrent_writers", wcases, "C09_writers", "C09_writers", "C09_writers_ok",
+              nontrivial=lambda c: len(c[1]) > 0 and sum(len(w) for w in c[0]) >= 2,
+              sig=lambda c, e, o: "writers:shared-pool", sample=1)
+    # 3g. two HLS streams (own packetizers, own hls.SegmentGenerator) fed alternately
+    two = [[hls_case(rng, rng.randint(40, 200 if T else 100)), hls_case(rng, rng.randint(40, 200 if T else 100), late=rng.random() < 0.3)]
+           for _ in range(80 if T else 12)]
+    ck.stream("hls_two_streams", two, None, "C09_hls2", "C09_hls2_ok", compare=False,
+              nontrivial=lambda c: hls_nontrivial(c[0]) and hls_nontrivial(c[1]), sig=lambda c, e, o: "hls:two-streams", sample=1)
+
     # 4. malformed: empty video payloads (Payload[0] on an empty slice); result left open by the property
     bad = [mux_case(rng, 0, rng.randint(1, 8), 7000, empty_video=True) for _ in range(300 if T else 40)]
     ck.stream("malformed", bad, "C09_mux", "C09_mux", "C09_mux_loose_ok", compare=False,
@@ -461,6 +486,7 @@ def run(ck):
              "parameter sets stored into an initially empty shared video meta before the first IDR and replaced between IDRs (packetizers, NewMuxer, deferred, HLS); "
              "end to end media.NewStream + RTP with an SDP without sprop-parameter-sets, HLS segments checked by ok_hls_es; "
              "AudioSpecificConfig drawn from every signalling class in all source-level streams, plus Decode+ToAdtsHeader component streams; "
+             "2-3 real Writers on scripted io.Writers with another writer's frame written between two packets of a frame in progress; two HLS streams fed alternately; "
              "separate malformed stream (empty video payloads); NewADTSHeader and CRC-32/MPEG component streams"
              % (top, big // 1024),
         trusted=["the ISO/IEC 13818-1 / 13818-7 / H.264 Annex B reading embodied in Model/C09TsDemux.v, C09Adts.v (adts_parse1) and "
